@@ -36,7 +36,7 @@ verif_harness! {
     }
 }
 
-//@ harness name=bc_encrypt prop=C14,C20 tier=quick bits=33408 stub=1 est=55 need=5 desc="W: bc_encrypt([l, r]) on an arbitrary state == Schneier's Blowfish encryption of the word pair under that state's P and S, all (l, r); round_function uninterpreted and shared with the oracle (leaf lemma bf_round_function, conf.rs)"
+//@ harness name=bc_encrypt prop=C14,C20 tier=quick bits=33408 stub=1 est=60 need=5 desc="W: bc_encrypt([l, r]) on an arbitrary state == Schneier's Blowfish encryption of the word pair under that state's P and S, all (l, r); round_function uninterpreted and shared with the oracle (leaf lemma bf_round_function, conf.rs)"
 verif_harness! {
     name: bc_encrypt,
     bytes: STATE + 8,
@@ -483,15 +483,15 @@ macro_rules! rec_harness {
         }
     };
 }
-//@ harness name=bc_salted_rec_s12_k72 prop=C14,C20 tier=quick bits=1344 stub=1 cbmc_args=--max-field-sensitivity-array-size;1100 est=465 need=14 desc="salted_expand_key(12-byte salt, 72-byte key) from an arbitrary P array (initial S-boxes): the P array seen by the first encryption is P ^ cycled key (all 18 words, key bytes beyond 56 included), the argument of each of the 521 encryptions is the previous result ^ the next 64 bits of the cycled salt (a salt length that does not divide 16: the position carries over from the P phase into the S phase), results stored in order; encrypt replaced by a recording stand-in, expectation written from the eksblowfish definition; all salt and key bytes"
+//@ harness name=bc_salted_rec_s12_k72 prop=C14,C20 tier=quick bits=1344 stub=1 cbmc_args=--max-field-sensitivity-array-size;1100 est=515 need=14 desc="salted_expand_key(12-byte salt, 72-byte key) from an arbitrary P array (initial S-boxes): the P array seen by the first encryption is P ^ cycled key (all 18 words, key bytes beyond 56 included), the argument of each of the 521 encryptions is the previous result ^ the next 64 bits of the cycled salt (a salt length that does not divide 16: the position carries over from the P phase into the S phase), results stored in order; encrypt replaced by a recording stand-in, expectation written from the eksblowfish definition; all salt and key bytes"
 rec_harness!(bc_salted_rec_s12_k72, 12, 72, true, false);
-//@ harness name=bc_salted_rec_s16_k8 prop=C14,C20 tier=quick bits=1344 stub=1 cbmc_args=--max-field-sensitivity-array-size;1100 est=450 need=14 desc="as bc_salted_rec_s12_k72 for bcrypt's 16-byte salt and an 8-byte key"
+//@ harness name=bc_salted_rec_s16_k8 prop=C14,C20 tier=quick bits=1344 stub=1 cbmc_args=--max-field-sensitivity-array-size;1100 est=475 need=14 desc="as bc_salted_rec_s12_k72 for bcrypt's 16-byte salt and an 8-byte key"
 rec_harness!(bc_salted_rec_s16_k8, 16, 8, true, false);
 //@ harness name=bc_salted_rec_s5_k57 prop=C14,C20 tier=thorough bits=1344 stub=1 cbmc_args=--max-field-sensitivity-array-size;1100 est=470 need=14 desc="as bc_salted_rec_s12_k72 for a 5-byte salt and a 57-byte key (every word straddles a wrap-around)"
 rec_harness!(bc_salted_rec_s5_k57, 5, 57, true, false);
-//@ harness name=bc_zero_salt_rec_k72 prop=C14 tier=quick bits=1152 stub=1 cbmc_args=--max-field-sensitivity-array-size;1100 est=465 need=14 desc="salted_expand_key(16 zero bytes, 72-byte key) behaves as the unsalted expansion (same P ^ key, arguments = previous results, same stores): with bc_expand_key_rec_k72 the zero-salt equivalence"
+//@ harness name=bc_zero_salt_rec_k72 prop=C14 tier=quick bits=1152 stub=1 cbmc_args=--max-field-sensitivity-array-size;1100 est=490 need=14 desc="salted_expand_key(16 zero bytes, 72-byte key) behaves as the unsalted expansion (same P ^ key, arguments = previous results, same stores): with bc_expand_key_rec_k72 the zero-salt equivalence"
 rec_harness!(bc_zero_salt_rec_k72, 16, 72, true, true);
-//@ harness name=bc_expand_key_rec_k72 prop=C14,C20,C09 quick=C09 tier=quick bits=1152 stub=1 cbmc_args=--max-field-sensitivity-array-size;1100 est=140 need=7 desc="bc_expand_key(72-byte key): P ^ cycled key seen by the first encryption, each argument = the previous result, results stored in order (Schneier's expansion with the key cycled); recording stand-in for encrypt"
+//@ harness name=bc_expand_key_rec_k72 prop=C14,C20,C09 quick=C09 tier=quick bits=1152 stub=1 cbmc_args=--max-field-sensitivity-array-size;1100 est=170 need=7 desc="bc_expand_key(72-byte key): P ^ cycled key seen by the first encryption, each argument = the previous result, results stored in order (Schneier's expansion with the key cycled); recording stand-in for encrypt"
 rec_harness!(bc_expand_key_rec_k72, 16, 72, false, false);
-//@ harness name=bc_expand_key_rec_k7 prop=C09,C14,C20 tier=quick bits=1152 stub=1 cbmc_args=--max-field-sensitivity-array-size;1100 need=7 desc="as bc_expand_key_rec_k72 for a 7-byte key (odd length: every key word straddles the wrap-around; what Blowfish::new_from_slice runs for a 56-bit key)"
+//@ harness name=bc_expand_key_rec_k7 prop=C09,C14,C20 tier=quick bits=1152 stub=1 cbmc_args=--max-field-sensitivity-array-size;1100 est=135 need=7 desc="as bc_expand_key_rec_k72 for a 7-byte key (odd length: every key word straddles the wrap-around; what Blowfish::new_from_slice runs for a 56-bit key)"
 rec_harness!(bc_expand_key_rec_k7, 16, 7, false, false);
